@@ -203,6 +203,7 @@ class Loop:
         # contract says leaving early is part of the function (and then says what that means
         # in its postconditions)
         self.early_exit = early_exit
+        self.defined_by_pass = ()
         self.inv = inv
         self.variant = variant
         self.havoc_fields = tuple(havoc_fields)
@@ -359,6 +360,10 @@ class Loop:
                 continue
             kind = self.kinds.get(n) or optkinds.get(n)
             cur = st.env.get(n)
+            if cur is None and n != idx_name and n not in self.defined_by_pass:
+                # not bound when the loop is reached: it stays unbound until the body binds it (a read
+                # before that is the body's own error), a declared kind does not conjure a value
+                continue
             if kind is None:
                 if cur is None:
                     continue
